@@ -524,6 +524,18 @@ class DirectSolver(LinearSolver):
                 x_vec[:] = sol_array
 
         # matrix-vector-product generated jacobians are scaled.
+        elif mode == 'rev' and (system._has_output_scaling or system._has_resid_scaling):
+            # The matrix was assembled in fwd mode from scaled vectors, so it is R^-1 J O (R, O:
+            # residual and output scale factors).  Its transpose is O J^T R^-1, while the
+            # reverse-mode vectors are scaled like their forward counterparts.  Solve in
+            # physical units: J^T x = b  <=>  x = R^-1 (R^-1 J O)^-T (O b).
+            with system._unscaled_context(outputs=[d_outputs], residuals=[d_residuals]):
+                out_scale = d_outputs._scaling[0] if system._has_output_scaling else 1.0
+                res_scale = d_residuals._scaling[0] if system._has_resid_scaling else 1.0
+                sol_array = scipy.linalg.lu_solve(self._lup, b_vec * out_scale, trans=trans_lu)
+                sol_array = sol_array / res_scale
+                x_vec[:] = sol_array
+            sol_array = x_vec.copy()
         else:
             x_vec[:] = sol_array = scipy.linalg.lu_solve(self._lup, b_vec, trans=trans_lu)
 
